@@ -98,6 +98,8 @@ type Behaviour struct {
 	AudArray    bool
 	OmitNonce   bool // refresh path: leave the nonce out of the new ID token
 	IDTTL       time.Duration
+	// RespContentType is the Content-Type of the answer ("" = application/json).
+	RespContentType string
 	// Mutate turns the honest ID token into what is served (forgeries); nil = honest.
 	Mutate func(idp *IdP, honest string, claims map[string]any, call *TokenCall) string
 	// IgnoreGrant answers even if the grant is invalid (a sloppy or hostile provider).
@@ -128,6 +130,8 @@ type IdP struct {
 	OnToken func(call *TokenCall) string
 	// OnJWKS is called at JWKS-endpoint entry; returning false makes it answer 500.
 	OnJWKS func() bool
+	// AtHash: ID tokens carry at_hash, the hash of the access token issued WITH them (OIDC Core 3.1.3.6)
+	AtHash bool
 	// JWKSHeaders are added to every JWKS answer (cache directives)
 	JWKSHeaders map[string]string
 	jwksTimes   []time.Time
@@ -384,7 +388,11 @@ func (p *IdP) serveToken(w http.ResponseWriter, r *http.Request) {
 		return
 	}
 	call.Status, call.Body = status, body
-	w.Header().Set("Content-Type", "application/json")
+	ct := "application/json"
+	if beh != nil && beh.RespContentType != "" {
+		ct = beh.RespContentType
+	}
+	w.Header().Set("Content-Type", ct)
 	w.Header().Set("Cache-Control", "no-store")
 	w.WriteHeader(status)
 	_, _ = w.Write([]byte(body))
@@ -506,6 +514,14 @@ func (p *IdP) process(call *TokenCall, beh *Behaviour) (int, string) {
 		claims["nonce"] = nonce
 	}
 	resp := map[string]any{}
+	var pendingAT string
+	if !beh.NoAccess {
+		pendingAT = p.marker("at")
+		if p.AtHash {
+			h := sha256.Sum256([]byte(pendingAT))
+			claims["at_hash"] = base64.RawURLEncoding.EncodeToString(h[:16])
+		}
+	}
 	tt := beh.TokenType
 	if tt == "" {
 		tt = "Bearer"
@@ -522,7 +538,7 @@ func (p *IdP) process(call *TokenCall, beh *Behaviour) (int, string) {
 		resp["id_token"] = call.IDToken
 	}
 	if !beh.NoAccess {
-		call.AccessToken = p.marker("at")
+		call.AccessToken = pendingAT
 		resp["access_token"] = call.AccessToken
 	}
 	if call.NewRefresh != "" {
